@@ -1,8 +1,8 @@
 --------------------------- MODULE I_RelativeVigorIndex ---------------------------
 (* RelativeVigorIndex(period1, period2, signal, zone): num = SMA(period1)(SWMA(period2)(d)), den = SMA(period1)(       *)
 (* SWMA(period2)(high - low)); rvi = num / den (0 when den = 0); signal line = signal(rvi).  Values [rvi, line].        *)
-(* AS CODED d = close - PREVIOUS close (first bar: close - open); the referenced definition uses close - open of the   *)
-(* same bar.  Seeds: the d-averages start from 0, the range averages from the first candle's high - low, the line      *)
+(* AS CODED d = close - PREVIOUS close (0 on the first bar: the construction candle is the prehistory; repaired in     *)
+(* /repo, it was close - open there); the referenced definition uses close - open of the same bar.  Seeds: the d-averages start from 0, the range averages from the first candle's high - low, the line      *)
 (* from 0.  S0 = rvi crosses the line (+ upwards).  S1 AS CODED = [S0 < 0 and rvi > zone and line > zone] -             *)
 (* [S0 > 0 and rvi < -zone and line < -zone], i.e. buy on a DOWNWARD cross above +zone and sell on an UPWARD cross      *)
 (* below -zone; the documentation states the opposite (buy: below -zone crossing upwards, sell: above +zone crossing   *)
@@ -28,7 +28,7 @@ RelativeVigorIndex_EStep(m, est, q) ==
 
 RelativeVigorIndex_Init(cfg, c) ==
     LET hl == FxSub(c.h, c.l)
-    IN  [pc |-> c.o,
+    IN  [pc |-> c.c,
          w1 |-> MAInit("swma", cfg.period2, FxZero), a1 |-> MAInit("sma", cfg.period1, FxZero),
          w2 |-> MAInit("swma", cfg.period2, hl),     a2 |-> MAInit("sma", cfg.period1, hl),
          m  |-> MInit(cfg.signal, FxZero), e |-> RelativeVigorIndex_EInit(cfg.signal)]
